@@ -32,6 +32,7 @@ func loadAll(repo string) (*Gen, error) {
 			return nil, err
 		}
 	}
+	g.inferPure()
 	return g, nil
 }
 
